@@ -321,7 +321,7 @@ func c13executor(c *core.Ctx, fn *ssa.Function, writes bool) {
 					}
 					return true
 				},
-				Sink:      func(x ssa.Instruction) bool { return x == first(header) }})
+				Sink: func(x ssa.Instruction) bool { return x == first(header) }})
 			if len(hits) == 0 {
 				c.OK("C13.a", "DOM", name+":"+op+":error-aborts", c.P.Pos(call.Pos()), "a failure of "+op+" cannot reach the next statement without the abort helper")
 			} else {
